@@ -157,3 +157,14 @@ Example C06_example :
      ("NL", 10, 3, 2, 4, 1, 11)]%Z
   /\ snd r = Done.
 Proof. vm_compute. split; reflexivity. Qed.
+
+(* children's spans are ordered, disjoint and nested: a child's tokens are a segment b of the
+   parent's a ++ b ++ c (text order, from lexer_coords' [chain]); every span is first..last *)
+Theorem C06_spans_ordered_nested a b c s e s' e' :
+  ordered (a ++ b ++ c) ->
+  first_start (a ++ b ++ c) = Some s -> last_end (a ++ b ++ c) = Some e ->
+  first_start b = Some s' -> last_end b = Some e' ->
+  (tpos s <= tpos s' /\ tpos s' <= tpos e' /\ tpos e' <= tpos e /\
+   (forall x, In x a -> tpos (snd x) <= tpos s') /\ (forall y, In y c -> tpos e' <= tpos (fst y)))%Z.
+Proof. exact (spans_ordered_nested a b c s e s' e'). Qed.
+Print Assumptions C06_spans_ordered_nested.
